@@ -69,19 +69,56 @@ def session_rows(platform, names):
     return list(_srows[k])
 
 
+# ---------- host and user names: drawn from the platform's legal alphabet (upper and lower case, digits, . - _)
+import string as _string
+_HOST_INNER = {"default": _string.ascii_letters + _string.digits + ".-_",
+               # the EOS session pattern's host class has no "_" (a C05 matter, see design/C04.md): keep to what every EOS pattern admits
+               "arista_eos": _string.ascii_letters + _string.digits + ".-"}
+FIXED_HOSTS = ["r1", "DC1-LEAF1A", "Core.sw-02", "X", "edge_9B", "n7K.Pod-3_b"]
+FIXED_USERS = ["admin", "Admin", "netOps_1", "OPS-2"]
+_rot = itertools.count()
+
+
+def _legal(platform, h):
+    inner = _HOST_INNER.get(platform, _HOST_INNER["default"])
+    return all(c in inner for c in h) and "root" not in h.lower() and "-tcl" not in h.lower()
+
+
+def rot_names(platform):
+    """deterministic rotation through fixed mixed-case names (exhaustive families)"""
+    i = next(_rot)
+    hosts = [h for h in FIXED_HOSTS if _legal(platform, h)]
+    return hosts[i % len(hosts)], FIXED_USERS[(i // len(hosts)) % len(FIXED_USERS)]
+
+
+def rand_names(rng, platform):
+    inner = _HOST_INNER.get(platform, _HOST_INNER["default"])
+    ends = _string.ascii_letters + _string.digits
+    while True:
+        n = rng.choice([1, 2, 3, 6, 10, 16])
+        h = rng.choice(ends) + "".join(rng.choice(inner) for _ in range(max(n - 2, 0))) + (rng.choice(ends) if n > 1 else "")
+        if _legal(platform, h):
+            break
+    u = rng.choice(_string.ascii_letters) + "".join(rng.choice(_string.ascii_letters + _string.digits + "_-") for _ in range(rng.choice([0, 3, 7])))
+    if "root" in u.lower():
+        u = "Admin"
+    return h, u
+
+
 # ---------- custom tables (random trees)
 def custom_levels(rows, tags):
     from scrapli.driver.network.base_driver import PrivilegeLevel
     lv = {}
     for (n, p, e, d, a, k, s) in rows:
-        lv[n] = PrivilegeLevel(pattern=rf"^r1\-{tags[n]}#\s?$", name=n, previous_priv=p, deescalate=d, escalate=e,
+        # like the EOS / NX-OS session patterns: lower-case classes, relying on classification being case-insensitive
+        lv[n] = PrivilegeLevel(pattern=rf"^[a-z0-9._\-]{{1,40}}\-{tags[n]}#\s?$", name=n, previous_priv=p, deescalate=d, escalate=e,
                                escalate_auth=a, escalate_prompt=r"^[pP]assword:\s?$" if a else "")
     return lv
 
 
 def custom_device_spec(rows, tags):
     from harness.simdevice import Move
-    prompts = {n: f"r1-{tags[n]}#" for n, *_ in rows}
+    prompts = {n: "{h}-" + (tags[n].upper() if i % 2 else tags[n]) + "#" for i, (n, *_) in enumerate(rows)}
     moves = {}
     for (n, p, e, d, a, k, s) in rows:
         if p:
@@ -130,12 +167,14 @@ def build(case):
         rows, tags = [tuple(r) for r in case["table"]], case["tags"]
         prompts, moves = custom_device_spec(rows, tags)
         dev = PrivDevice("custom", login_mode=case["login"], enable_password=case["dpw"], refuse=refuse, ignore=ignore,
-                         pw_limit=case["pwl"], prompts=prompts, moves=moves, fail_lines=set(case.get("fail", [])))
+                         pw_limit=case["pwl"], prompts=prompts, moves=moves, fail_lines=set(case.get("fail", [])),
+                         hostname=case.get("host", "r1"), user=case.get("user", "admin"))
         root = next((n for n, p, *_ in rows if not p), rows[0][0])
         kw = dict(privilege_levels=custom_levels(rows, tags), default_desired_privilege_level=root)
         return "network", dev, kw
     dev = PrivDevice(case["platform"], login_mode=case["login"], enable_password=case["dpw"], refuse=refuse, ignore=ignore,
-                     pw_limit=case["pwl"], fail_lines=set(case.get("fail", [])))
+                     pw_limit=case["pwl"], fail_lines=set(case.get("fail", [])), hostname=case.get("host", "r1"),
+                     user=case.get("user", "admin"))
     return case["platform"], dev, {}
 
 
@@ -326,6 +365,8 @@ def mk_case(platform, rows, sessions, a, b, blocked, pwv, known, default, extra=
     c = dict(platform=platform, login=login, ops=ops, blocked=[[list(k), v] for k, v in blocked], dpw=dpw, sec=sec, pwl=pwl)
     if extra:
         c.update(extra)
+    c.setdefault("host", rot_names(platform)[0])
+    c.setdefault("user", rot_names(platform)[1])
     return c
 
 
@@ -371,7 +412,9 @@ def platform_cases(rng, platform, sessions, full, budget):
             auth = has_auth(rows, c["default"], a) or has_auth(rows, a, b)
             pwv = rng.choice(PW_VARIANTS) if auth else PW_VARIANTS[0]
             known = rng.random() < 0.5 or not start_ok(a, False)
-            yield one(a, b, subset, pwv, known)
+            cs = one(a, b, subset, pwv, known)
+            cs["host"], cs["user"] = rand_names(rng, platform)
+            yield cs
 
 
 def custom_cases(rng, count, forest=False):
@@ -388,7 +431,8 @@ def custom_cases(rng, count, forest=False):
             blocked = [((m, cmd), rng.choice(["refuse", "ignore"])) for m, cmd in subset]
             pwv = rng.choice(PW_VARIANTS)
             known = rng.random() < 0.5 or not unambiguous(rows, a)
-            yield mk_case("custom", rows, [], a, b, blocked, pwv, known, root, extra=dict(table=[list(r) for r in rows], tags=tags))
+            h, u = rand_names(rng, "custom")
+            yield mk_case("custom", rows, [], a, b, blocked, pwv, known, root, extra=dict(table=[list(r) for r in rows], tags=tags, host=h, user=u))
 
 
 SESSION_NAME_SETS = {"cisco_nxos": [("sessA", "sessB"), ("maint-a", "maint-b", "zz3")],
@@ -403,7 +447,9 @@ def interleaved_session_cases(rng, platform, names, nmax, budget=None):
     alpha = [("R", n) for n in names] + [("A", n) for n in names] + [("A", c["default"]), ("A", "configuration")]
 
     def case(login, h, blocked=()):
-        return dict(platform=platform, login=login, ops=[list(o) for o in h], blocked=[[list(k), v] for k, v in blocked], dpw=None, sec="", pwl=3)
+        host, user = rot_names(platform) if budget is None else rand_names(rng, platform)
+        return dict(platform=platform, login=login, ops=[list(o) for o in h], blocked=[[list(k), v] for k, v in blocked], dpw=None, sec="", pwl=3,
+                    host=host, user=user)
     if budget is None:
         for n in range(2, nmax + 1):
             for h in itertools.product(alpha, repeat=n):
@@ -617,10 +663,11 @@ def run(tier, seed):
             before = c["login"] if not ia or ia - 1 >= len(recs_) else recs_[ia - 1]["mode"]
             pth = (tree_path(rows, before, tgt_ops[-1][1]) if tgt_ops else None) or []
             ck.case(json.dumps(c, sort_keys=True), nontrivial=len(pth) >= 2,
-                    sample={k: c[k] for k in ("platform", "login", "ops", "blocked", "dpw", "sec", "pwl")},
+                    sample={k: c.get(k) for k in ("platform", "host", "user", "login", "ops", "blocked", "dpw", "sec", "pwl")},
                     tags=(c["platform"], f"pathlen={len(pth)}", f"out={last['out']}", f"blocked={min(len(c['blocked']), 4)}",
                           "dpw" if c["dpw"] else "nopw", f"sec={c['sec'] or '-'}", "belief-known" if len(tgt_ops) >= 2 else "belief-unknown",
-                          "sessions-interleaved" if any(o[0] == "R" for o in c["ops"][1:]) and tgt_ops else "plain"))
+                          "sessions-interleaved" if any(o[0] == "R" for o in c["ops"][1:]) and tgt_ops else "plain",
+                          "host-has-upper" if any(ch.isupper() for ch in c.get("host", "")) else "host-lower"))
         for stack, o in runs:
             if indom:
                 for what, fl in oracle(c, o):
